@@ -6,6 +6,7 @@ from .. import spec, sysh
 def s_run(ctx, shape, oracle, opts=None):
     opts = dict(opts or {})
     sysobj, info, durations = sysh.build_system(ctx, shape, assume_nonneg=opts.get("nonneg", True), rt=opts.get("rt", "none"))
+    shape = sysh.finish(sysobj, info, shape)
     kw = {}
     for k in ("energy", "phase"):
         if k in opts:
@@ -33,6 +34,7 @@ def s_real_loop(ctx, shape, oracle, opts=None):
     level-by-level propagation of off-states and voltages is exercised as it really happens), then the same oracle."""
     opts = dict(opts or {})
     sysobj, info, durations = sysh.build_system(ctx, shape)
+    shape = sysh.finish(sysobj, info, shape)
     import sysloss.components as C
     from .. import shims
 
